@@ -41,8 +41,15 @@ def shape_edges(kind, size):
     raise ValueError(kind)
 
 
+def big_size(prng):
+    """Unusually large motif / orbit size (numeric edge cases live there: e.g. s * (1.0 / s) < 1 first at s = 49)."""
+    return prng.choice((prng.randrange(7, 33), prng.randrange(33, 140), prng.choice((49, 64, 98, 100, 103, 107, 128, 161, 187))))
+
+
 def pick_fast_motif(prng, shape_focus=False):
     r = prng.random()
+    if prng.random() < 0.04:
+        return {"kind": prng.choice(("star", "path", "cycle")), "size": big_size(prng)}
     if shape_focus:
         # C02: stress the number of edges a callback returns
         k = prng.choice(("single", "two", "clique", "cycle", "star", "path", "diamond", "lib_clique2", "empty"))
@@ -130,6 +137,15 @@ def gen_scenario(prng, tier, index, focus):
             spec = dict(prng.choice(CUSTOM_CATALOGUE))
             if focus == "C02" and prng.random() < 0.5:
                 spec = dict(prng.choice(CUSTOM_CATALOGUE[:6]))
+            if prng.random() < 0.06:
+                # a motif with one unusually large orbit (optionally a small hub orbit in front of or behind it)
+                k = big_size(prng)
+                lay = prng.choice(("single", "hub_first", "hub_last"))
+                orbits = {"single": [k], "hub_first": [1, k], "hub_last": [k, 1]}[lay]
+                tot = sum(orbits)
+                hub = 0 if lay != "hub_last" else tot - 1
+                spec = {"tag": f"big-{lay}-{k}", "orbits": orbits,
+                        "edges": [[hub, i] for i in range(tot) if i != hub], "ret": prng.choice(("tuple", "list"))}
             ne = len(spec["edges"])
             if spec["ret"] == "bare":
                 spec["names"] = f"n{j}"
